@@ -322,10 +322,16 @@ Proof. vm_compute; reflexivity. Qed.
 
 PROPS['C01'] = dict(
     title='C01 - build then parse returns the value that was built (symmetry)',
-    requires=['ConInd'],
+    requires=['ConInd', 'RTFacts'],
+    prelude='Local Open Scope nat_scope.',
     theorems=[
         ('RTFacts', 'roundtrip_fragment', 'THE theorem: by induction over the construct syntax, every construct of the closed sequential fragment (frag, a decidable predicate) round-trips - at any nesting depth, at any stream position, with any trailing data (RT) or at the end of a delimited region (RTe).'),
         ('RTFacts', 'C01_build_then_parse', 'On the public entry points: whatever build emits, parse accepts and returns a value contained in what build returned (derived members filled in), in any keyword context.'),
+        ('DepRT', 'dep_roundtrip', 'DEPENDENT layouts, by induction over the syntax: the fragment dfrag extends frag with Structs whose members are sized by the integer fields before them - Bytes(this.n), Array(this.n, x), Padded(this.n, x), FixedSized(this.n, x) - to any nesting depth (such a struct reads only its own scope, so it is closed again and may sit inside Array, Prefixed, Padded, ... and other structs). Every construct of dfrag round-trips at any position with any trailing data.'),
+        ('DepRT', 'C01_build_then_parse_dependent', 'On the public entry points for the dependent fragment.'),
+        ('DepRT', 'RT_dstruct', 'The dependent Struct lemma: integer fields define names (the built value in the build context, the parsed value in the parse context: the same integer), later members read them through this.name and agree on both sides.'),
+        ('DepRT', 'eval_this', 'this.n evaluates to the integer the scope holds for n.'),
+        ('DepRT', 'ex_dep_in_fragment', 'A header with two counts, a payload sized by the first, records counted by the second each with its own length field and a constant, a trailer padded to the first: in dfrag, not in frag.'),
         ('RTFacts', 'RT_struct', 'Struct: preservation lemma (members round-trip, names distinct => the Struct round-trips).'),
         ('RTFacts', 'RT_sequence', 'Sequence: preservation lemma.'),
         ('RTFacts', 'RT_array', 'Array with any constant count: preservation lemma (the binary-iteration loop is plain iteration).'),
